@@ -68,6 +68,19 @@ def run(ctx):
         mapping = {'a': 'zeta', 'b': 'alpha'}
         base.append(wf)
         variants.append({'perm': permute(wf, rng), 'ren': rename_wf(wf, mapping), 'mapping': mapping})
+    # a step referred to through every tag kind (or-disabled, one-of, optional), renamed to words of the expression /
+    # lifecycle vocabulary: the same graph under every name
+    from vlib import lit, ref, tmap, opt, oneof, ordisabled
+    for names in (('outputs', 'steps'), ('outputs_x', 'input'), ('steps', 'closed'), ('enabling', 'success')):
+        a = {'kind': 'plugin', 'pstep': 'work', 'fields': {'input': tmap({'id': lit('a')}), 'enabled': ref('input.flag')}}
+        b = {'kind': 'plugin', 'pstep': 'work', 'fields': {'input': tmap({'id': lit('b'), 'deps': tmap({
+            'od': ordisabled('steps.a.outputs.success'), 'w': opt('steps.a.outputs.success', True),
+            'oo': oneof('kind', {'ok': ref('steps.a.outputs.success'), 'bad': ref('steps.a.outputs.error')})})})}}
+        wf = {'steps': {'a': a, 'b': b},
+              'outputs': {'success': tmap({'b': ref('steps.b.outputs.success.tok'), 'od': ordisabled('steps.a.outputs.success')})}}
+        mapping = {'a': names[0], 'b': names[1]}
+        base.append(wf)
+        variants.append({'perm': permute(wf, rng), 'ren': rename_wf(wf, mapping), 'mapping': mapping})
     reps = {}
     for name, wf in pc.invalid_next_to_any_field_shapes() + pc.group_collision_shapes():
         # texts that must be refused - every time
